@@ -63,9 +63,9 @@ def register(reg, tier="quick"):
     for sh in shapes(max_total, 2):
         tag = "|".join(",".join(map(str, s)) for s in sh)
         c = Contract(F + "integral_data", dict(ir=ir_type(sh)),
-                     requires=["all([distinct(ir.integral_names[t]) for t in ITG_TYPES])",
-                               # UFL: a subdomain id occurs once per integral type
-                               "all([distinct(ir.subdomain_ids[t]) for t in ITG_TYPES])"],
+                     requires=[  # an (id, kernel name) pair occurs once per type: an id may be served by several integral groups
+                                        # (different metadata) and a group name repeats for each id of a tuple id
+                                        "all([distinct_pairs(ir.subdomain_ids[t], ir.integral_names[t]) for t in ITG_TYPES])"],
                      ensures=ENSURES, properties=["C06", "C18"], modular=False,
                      name=f"integral_data[{tag}]", bounded=f"#integrals<={max_total}, #kernels per integral<=2",
                      mutants=[("id_sort = np.argsort(_ids)", "id_sort = list(range(len(_ids)))"),
@@ -74,3 +74,81 @@ def register(reg, tier="quick"):
         reg.add(c)
     # the tuple literal the loop iterates is the ufcx_integral_type enum order
     reg.finite_checks = getattr(reg, "finite_checks", [])
+
+
+def register_unbounded(reg):
+    """integral_data for lists of ANY length (prove mode with the list algebra of pyvc/slist.py)."""
+    import z3
+
+    from pyvc import models, slist
+    from pyvc.contract import Custom
+    from pyvc.values import SV, fresh_name
+
+    def mk_ir(interp, name):
+        sub, names, doms = {}, {}, {}
+        for typ in spec.ITG_TYPES:
+            n = SV(z3.Int(f"n_{typ}"), "int")
+            interp.ctx.assume(n.z >= 0)
+            sub[typ] = slist.SList([slist.Base(f"ids_{typ}", n, "int")])
+            names[typ] = slist.SList([slist.Base(f"names_{typ}", n, "str")])
+            d = slist.Base(f"domains_{typ}", n, "obj", attrs=("len",))
+            doms[typ] = slist.SList([d])
+        return types.SimpleNamespace(subdomain_ids=sub, integral_names=names, integral_domains=doms)
+
+    def forall_k(interp, fn, args, kwargs):
+        n, f = args
+        k = SV(z3.Int(fresh_name("k")), "int")
+        with interp.ctx.scope():
+            interp.ctx.assume(z3.And(k.z >= 0, k.z < models.to_z3(n, "int")))
+            v = interp.call(f, [k], {})
+            z = models.as_bool_sv(interp, v)
+            if z is True:
+                return True
+            if z is not False:
+                st, _ = interp.ctx.valid(z.z)
+                if st == "proved":
+                    return True
+        interp.ctx.notes.append("forall_k body not provable for an arbitrary index")
+        return SV(z3.Bool(fresh_name("forall_unproved")), "bool", havoc=True)
+
+    def paired_gather(interp, fn, args, kwargs):
+        ir, result, t = args
+        typ = spec.ITG_TYPES[t]
+        try:
+            ids, nm, dm = interp.getattr(result, "ids"), interp.getattr(result, "names"), interp.getattr(result, "domains")
+            ok = all(isinstance(x, slist.SList) and len(x.segs) == 5 for x in (ids, nm, dm))
+            if ok:
+                ki, si, pi = slist.provenance(ids, t)
+                kn, sn, pn = slist.provenance(nm, t)
+                kd, sd, pd = slist.provenance(dm, t)
+                ok = (ki == kn == kd == "gather" and pi is pn and pn is pd and pi.src is ir.subdomain_ids[typ].segs[0]
+                      and si is ir.subdomain_ids[typ].segs[0] and sn is ir.integral_names[typ].segs[0]
+                      and sd is ir.integral_domains[typ].segs[0])
+        except Exception:  # noqa: BLE001
+            ok = False
+        if ok:
+            interp.ctx.ghost.setdefault("list_lemmas", set()).add(
+                "L-GATHER: lists gathered from X, N, D through one permutation of range(n) are a paired permutation of (X, N, D)")
+            return True
+        interp.ctx.notes.append("paired_gather: segments are not gathers through one argsort permutation")
+        return SV(z3.Bool(fresh_name("paired_unproved")), "bool", havoc=True)
+
+    reg.effects[spec.forall_k] = forall_k
+    reg.effects[spec.paired_gather] = paired_gather
+    reg.add(Contract(
+        F + "integral_data", dict(ir=Custom(mk_ir)),
+        ensures=[
+            "len(result.ids) == len(result.names) and len(result.names) == len(result.domains)"
+            " and len(result.ids) == count_types_before(ir, 5)",
+            "len(result.offsets) == 6 and result.offsets[0] == 0",
+            "all([forall_k(len(ir.subdomain_ids[ITG_TYPES[t]]) - 1, lambda k: result.ids[count_types_before(ir, t) + k]"
+            " <= result.ids[count_types_before(ir, t) + k + 1]) for t in range(5)])",
+            "all([paired_gather(ir, result, t) for t in range(5)])",
+            "all([result.offsets[t + 1] - result.offsets[t] == sum([len(d) for d in ir.integral_domains[ITG_TYPES[t]]]) for t in range(5)])",
+        ],
+        properties=["C06", "C18"], modular=False, name="integral_data[any length]",
+        note="prove mode: symbolic-length lists (pyvc/slist.py); np.argsort external; lemmas L-LIST recorded as assumptions",
+        mutants=[("names += [ir.integral_names[itg_type][i] for i in id_sort]", "names += ir.integral_names[itg_type]"),
+                 ("domains[num_integrals:]", "domains[offsets[-1] :]"),
+                 ("domains += [ir.integral_domains[itg_type][i] for i in id_sort]",
+                  "domains += [ir.integral_domains[itg_type][i] for i in np.argsort(_ids)]")]))
